@@ -11,6 +11,7 @@ def main():
     a = ap.parse_args()
     seed = int(os.environ.get('VERIF_SEED', '0') or 0)
     os.environ['VERIF_TIER'] = a.tier
+    if a.write_baseline: os.environ['VERIF_WRITE_SAMPLE_CACHE'] = '1'
     from engine import runner
     try:
         if a.replay:
